@@ -241,7 +241,7 @@ func c14Concurrent(r *Run, cfg *Stream) {
 				out.Fams = strings.Join(fs, ",")
 			}
 		case "list":
-			names, err := w.ListTables(parent)
+			names, err := w.ListTablesView(parent, []btapb.Table_View{btapb.Table_VIEW_UNSPECIFIED, btapb.Table_SCHEMA_VIEW, btapb.Table_FULL}[int(evt)%3])
 			out.Code = code(err)
 			keep := false
 			for _, n := range names {
